@@ -39,3 +39,16 @@ Proof.
   exists k, r. destruct F. destruct (G Hin). auto.
 Qed.
 Print Assumptions C05_code_flow_refresh_token_issuance.
+
+(* the refresh clauses of the history monitor (Cases/Monitors.v judge_C05) on the model: for a tracker whose view of the
+   presented token (client, granted scopes, granted audience) is the stored record's and whose registrations are the
+   state's, the judge is silent on the model's answer to every refresh request *)
+From FositeModel Require Import Cases.CasesHist Cases.Monitors Proofs.MonitorC12H.
+Theorem C05_monitor_refresh_clauses_hold_of_the_model : forall cfg m s auth tok sm pr j c,
+  cred m tok = Some (j, c) ->
+  (forall a, nth_error (m_clients m) a = clients s a) ->
+  (forall k r, key_of s tok = Some k -> refresh (st s) k = Some (true, r) ->
+     ci_client c = r_client r /\ ci_scopes c = r_gscopes r /\ ci_aud c = r_gaud r) ->
+  judge_C05 cfg m (ORefresh auth tok sm) (snd (step cfg s (ORefresh auth tok sm))) pr = (None, [], []).
+Proof. exact judge_C05_refresh_sound. Qed.
+Print Assumptions C05_monitor_refresh_clauses_hold_of_the_model.
